@@ -54,7 +54,6 @@ inductive Ns
 /-- One child element of the `<iq/>`.  `flag` is the single payload detail some handler branches on:
 * `chat@archive`  : the `with` attribute is non-empty            (QXmppArchiveChatIq::isArchiveChatIq)
 * `query@private` : first grandchild is `storage@storage:bookmarks` (QXmppPrivateStorageIq::isPrivateStorageIq)
-* `query@rpc`     : `methodCall/methodName` splits into exactly two parts at '.' (QXmppRpcManager::invokeInterfaceMethod)
 * `query@disco#*` : `node` is non-empty and does not start with the client's capabilities node
 false everywhere else. -/
 structure Kid where
@@ -98,10 +97,6 @@ def Beh.pass : Beh := ⟨false, []⟩
 def Beh.swallow : Beh := ⟨true, []⟩
 /-- reply addressed with `setTo(request.from)` -/
 def Beh.reply (k : RKind) : Beh := ⟨true, [⟨k, .sender, true⟩]⟩
-/-- reply with no `to` at all (indistinguishable from `sender` when the request had no `from`) -/
-def Beh.replyNoTo (f : From) (k : RKind) : Beh :=
-  ⟨true, [⟨k, if f = .none then .sender else .none, true⟩]⟩
-
 def isReq : IqType → Bool
   | .get | .set => true
   | _ => false
@@ -139,12 +134,6 @@ def namedHasNs (s : Stanza) (t : Tag) (n : Ns) : Bool :=
 def namedNs (s : Stanza) (t : Tag) (n : Ns) : Option Kid :=
   s.kids.find? (fun k => k.tag == t && k.ns == n)
 
-/-- the flag of the first child with that tag (false when there is none) -/
-def namedFlag (s : Stanza) (t : Tag) : Bool :=
-  match named s t with
-  | some k => k.flag
-  | none => false
-
 /-- the flag of the first child with that tag and namespace (false when there is none) -/
 def namedNsFlag (s : Stanza) (t : Tag) (n : Ns) : Bool :=
   match namedNs s t n with
@@ -153,16 +142,18 @@ def namedNsFlag (s : Stanza) (t : Tag) (n : Ns) : Bool :=
 
 /-! ### The bundled managers (src/client/*Manager.cpp, `handleStanza`) -/
 
-/-- QXmppVCardManager.cpp:153 — any type, any sender -/
+/-- QXmppVCardManager.cpp `handleStanza` — responses with a vCard child are consumed (any sender);
+`type == "get" || type == "set"` returns false (repo commit 28afc7a) -/
 def vcardBeh (s : Stanza) : Beh :=
-  if headIs s .vCard .vcard then .swallow else .pass
+  if headIs s .vCard .vcard then (if s.type = .get ∨ s.type = .set then .pass else .swallow) else .pass
 
-/-- QXmppRosterManager.cpp:199 — sender must be empty or have the own bare JID; only `set` is answered,
-with an IQ that has no `to` -/
+/-- QXmppRosterManager.cpp `handleStanza` — sender must be empty or have the own bare JID; `type == "get"` returns
+false; a `set` (push) is acknowledged with `setTo(from)` (repo commit 318b7cf); everything else is consumed -/
 def rosterBeh (s : Stanza) : Beh :=
   if !headIs s .query .roster then .pass
   else if s.frm = .domain ∨ s.frm = .other then .pass
-  else if parsedType s.type = .set then .replyNoTo s.frm .result
+  else if s.type = .get then .pass
+  else if parsedType s.type = .set then .reply .result
   else .swallow
 
 /-- QXmppVersionManager.cpp:118 — handleIqRequests<QXmppVersionIq> then the legacy branch -/
@@ -187,10 +178,11 @@ def discoBeh (s : Stanza) : Beh :=
     | _ => .pass
   else .pass
 
-/-- QXmppArchiveManager.cpp:20 -/
+/-- QXmppArchiveManager.cpp `handleStanza` — get/set return false first (repo commit 29beb7d) -/
 def archiveBeh (s : Stanza) : Beh :=
+  if s.type = .get ∨ s.type = .set then .pass
   -- isArchiveChatIq: the first chat@archive child, wherever it is, has a non-empty `with`
-  if namedNsFlag s .chat .archive then .swallow
+  else if namedNsFlag s .chat .archive then .swallow
   else if headIs s .list .archive then .swallow
   else if headIs s .pref .archive then .swallow
   else .pass
@@ -201,15 +193,18 @@ def blockingBeh (sub : Bool) (s : Stanza) : Beh :=
     .reply (if s.type = .set ∧ (s.frm = .none ∨ s.frm = .ownBare) ∧ sub = true then .result else .error)
   else .pass
 
-/-- QXmppBookmarkManager.cpp:129 -/
+/-- QXmppBookmarkManager.cpp `handleStanza` — get/set return false first (repo commit 88fc5c1) -/
 def bookmarkBeh (s : Stanza) : Beh :=
-  if headIs s .query .priv && headFlag s then .swallow
+  if s.type = .get ∨ s.type = .set then .pass
+  else if headIs s .query .priv && headFlag s then .swallow
   else if s.id = .bm then .swallow   -- `!pendingId.isEmpty() && id == pendingId`, any type
   else .pass
 
-/-- QXmppMamManager.cpp:148 (the `<iq/>` branch: isMamResultIq) -/
+/-- QXmppMamManager.cpp `handleStanza` (not a `<message/>`): get/set return false (repo commit daa6e10), then
+isMamResultIq -/
 def mamBeh (s : Stanza) : Beh :=
-  if namedHasNs s .fin .mam then .swallow else .pass
+  if s.type = .get ∨ s.type = .set then .pass
+  else if namedHasNs s .fin .mam then .swallow else .pass
 
 /-- QXmppMucManager.cpp:87. `room` = a joined room has the sender's JID and (admin) waits for this id /
 (owner) the form is non-null; with no rooms the manager never returns true. -/
@@ -217,25 +212,30 @@ def mucBeh (room : Bool) (s : Stanza) : Beh :=
   if (namedHasNs s .query .mucAdmin || namedHasNs s .query .mucOwner) && room && s.type = .result
   then .swallow else .pass
 
-/-- QXmppRegistrationManager.cpp:187 (registerOnConnect off; the stream-features branch is not an IQ) -/
+/-- QXmppRegistrationManager.cpp `handleStanza` (registerOnConnect off; the stream-features branch is not an IQ):
+get/set return false first (repo commit e597fe7) -/
 def registrationBeh (s : Stanza) : Beh :=
-  if s.id = .reg then .swallow
+  if s.type = .get ∨ s.type = .set then .pass
+  else if s.id = .reg then .swallow
   else if headIs s .query .register then .swallow
   else .pass
 
 /-- QXmppRpcManager.cpp:158 with no invokable interface registered -/
 def rpcBeh (s : Stanza) : Beh :=
   let q := namedHasNs s .query .rpc
-  if q && s.type = .set then
-    -- invokeInterfaceMethod: method name not of the form a.b → plain `return`; unknown interface → error IQ
-    (if namedFlag s .query then .reply .error else .swallow)
+  -- invokeInterfaceMethod: method name not of the form a.b → bad-request error IQ (repo commit af7bef7);
+  -- unknown interface → item-not-found error IQ
+  if q && s.type = .set then .reply .error
   else if q && s.type = .result then .swallow
   else if s.type = .error && (named s .error).isSome && q then .swallow
   else .pass
 
-/-- QXmppTransferManager.cpp:908 with no transfer job and nobody connected to `fileReceived` -/
+/-- QXmppTransferManager.cpp `handleStanza` with no transfer job and nobody connected to `fileReceived`.
+Repo commit 1833c1a: a result/error carrying an IBB element and a `get` carrying bytestreams / SI return false. -/
 def transferBeh (s : Stanza) : Beh :=
-  if headIs s .close .ibb then .reply .error
+  if isResp s.type && (headIs s .close .ibb || headIs s .data .ibb || headIs s .openT .ibb) then .pass
+  else if s.type = .get && (headIs s .query .bytestreams || namedHasNs s .si .si) then .pass
+  else if headIs s .close .ibb then .reply .error
   else if headIs s .data .ibb then .reply .error
   else if headIs s .openT .ibb then .reply .error
   else if headIs s .query .bytestreams then
@@ -244,9 +244,10 @@ def transferBeh (s : Stanza) : Beh :=
     (if parsedType s.type = .set then .reply .error else .swallow)
   else .pass
 
-/-- QXmppUploadRequestManager.cpp:273 -/
+/-- QXmppUploadRequestManager.cpp `handleStanza` — get/set return false first (repo commit 7916dee) -/
 def uploadRequestBeh (s : Stanza) : Beh :=
-  if headIs s .slot .upload then .swallow
+  if s.type = .get ∨ s.type = .set then .pass
+  else if headIs s .slot .upload then .swallow
   else if headIs s .request .upload then .swallow
   else .pass
 
@@ -292,58 +293,6 @@ def rowOf : Mgr → Row
   | .vcard => ⟨.vcard, false, vcardBeh⟩
   | .version => ⟨.version, false, versionBeh⟩
   | m => ⟨m, false, passBeh⟩
-
-/-! ### The same handlers with /verif/fixes/C08-*.diff applied (not today's code; selected in the driver with
-the argument `fixed`, see Props: `C08_holds_after_fixes`) -/
-
-/-- C08-vcard-requests.diff: get/set are left to the fallback -/
-def vcardFixedBeh (s : Stanza) : Beh :=
-  if headIs s .vCard .vcard then (if s.type = .get ∨ s.type = .set then .pass else .swallow) else .pass
-
-/-- C08-roster-get-and-reply-to.diff: `get` is left to the fallback, the push result is addressed to the sender -/
-def rosterFixedBeh (s : Stanza) : Beh :=
-  if !headIs s .query .roster then .pass
-  else if s.frm = .domain ∨ s.frm = .other then .pass
-  else if s.type = .get then .pass
-  else if parsedType s.type = .set then .reply .result
-  else .swallow
-
-/-- C08-legacy-managers-requests.diff -/
-def archiveFixedBeh (s : Stanza) : Beh :=
-  if s.type = .get ∨ s.type = .set then .pass else archiveBeh s
-def bookmarkFixedBeh (s : Stanza) : Beh :=
-  if s.type = .get ∨ s.type = .set then .pass else bookmarkBeh s
-def mamFixedBeh (s : Stanza) : Beh :=
-  if s.type = .get ∨ s.type = .set then .pass else mamBeh s
-def uploadRequestFixedBeh (s : Stanza) : Beh :=
-  if s.type = .get ∨ s.type = .set then .pass else uploadRequestBeh s
-def registrationFixedBeh (s : Stanza) : Beh :=
-  if s.type = .get ∨ s.type = .set then .pass else registrationBeh s
-def rpcFixedBeh (s : Stanza) : Beh :=
-  let q := namedHasNs s .query .rpc
-  if q && s.type = .set then .reply .error
-  else if q && s.type = .result then .swallow
-  else if s.type = .error && (named s .error).isSome && q then .swallow
-  else .pass
-
-/-- C08-transfer-responses-and-get.diff -/
-def transferFixedBeh (s : Stanza) : Beh :=
-  let ibb := headIs s .close .ibb || headIs s .data .ibb || headIs s .openT .ibb
-  if isResp s.type && ibb then .pass
-  else if s.type = .get && (headIs s .query .bytestreams || namedHasNs s .si .si) then .pass
-  else transferBeh s
-
-def rowOfFixed : Mgr → Row
-  | .vcard => ⟨.vcard, false, vcardFixedBeh⟩
-  | .roster => ⟨.roster, false, rosterFixedBeh⟩
-  | .archive => ⟨.archive, false, archiveFixedBeh⟩
-  | .bookmark => ⟨.bookmark, false, bookmarkFixedBeh⟩
-  | .mam => ⟨.mam, false, mamFixedBeh⟩
-  | .uploadRequest => ⟨.uploadRequest, false, uploadRequestFixedBeh⟩
-  | .registration => ⟨.registration, false, registrationFixedBeh⟩
-  | .rpc => ⟨.rpc, false, rpcFixedBeh⟩
-  | .transfer => ⟨.transfer, false, transferFixedBeh⟩
-  | m => rowOf m
 
 /-- Which claim predicates each transcribed `handleStanza` body calls (`isXyz(` names, `requests<T>` = a type given
 to `handleIqRequests<…>`), in order of first appearance.  The translator regenerates the same table from the
@@ -452,39 +401,6 @@ def goodTF (t : IqType) (f : From) (b : Beh) : Bool :=
 def Beh.goodFor (s : Stanza) (b : Beh) : Bool := goodTF s.type s.frm b
 
 def Row.good (r : Row) (s : Stanza) : Bool := (r.run s).goodFor s
-
-/-- the property text for all bundled managers (today's handlers) and all stanzas -/
-def FullC08 : Prop :=
-  ∀ (ms : List Mgr) (s : Stanza), answeredRight s (dispatch (ms.map rowOf) s).sent = true
-
-/-- the cells where today's handler is NOT good (exact, see Props: `defect_exact`) -/
-def defectCell : Mgr → Stanza → Bool
-  | .vcard, s => isReq s.type && headIs s .vCard .vcard
-  | .roster, s =>
-    headIs s .query .roster && !(s.frm = .domain || s.frm = .other) &&
-      (s.type = .get || (s.type = .set && (s.frm = .ownFull || s.frm = .ownOther)))
-  | .archive, s =>
-    isReq s.type &&
-      (namedNsFlag s .chat .archive || headIs s .list .archive || headIs s .pref .archive)
-  | .bookmark, s => isReq s.type && ((headIs s .query .priv && headFlag s) || s.id = .bm)
-  | .mam, s => isReq s.type && namedHasNs s .fin .mam
-  | .registration, s => isReq s.type && (s.id = .reg || headIs s .query .register)
-  | .rpc, s =>
-    s.type = .set && namedHasNs s .query .rpc && !namedFlag s .query
-  | .transfer, s =>
-    (isResp s.type && (headIs s .close .ibb || headIs s .data .ibb || headIs s .openT .ibb))
-    || (s.type = .get && !(headIs s .close .ibb || headIs s .data .ibb || headIs s .openT .ibb)
-        && (headIs s .query .bytestreams || namedHasNs s .si .si))
-  | .uploadRequest, s => isReq s.type && (headIs s .slot .upload || headIs s .request .upload)
-  | _, _ => false
-
-/-- managers whose `handleStanza` today has at least one defect cell -/
-def defectiveMgrs : List Mgr :=
-  [.vcard, .roster, .archive, .bookmark, .mam, .registration, .rpc, .transfer, .uploadRequest]
-
-/-- old-style handlers are not called for decrypted IQs, so their defects cannot show there -/
-def Row.defect (r : Row) (s : Stanza) : Bool :=
-  if s.enc && !r.newStyle then false else defectCell r.mgr s
 
 def allMgrs : List Mgr :=
   [.archive, .blocking, .blockingSub, .bookmark, .carbon, .carbonV2, .discovery, .entityTime, .mam,
